@@ -243,6 +243,23 @@ fn wrong_value(c: &mut Case<'_>, kinds: &[&str]) -> (String, Value) {
     (k.to_owned(), v)
 }
 
+fn string_leaves(v: &Value, at: String, out: &mut Vec<String>) {
+    match v {
+        Value::String(_) => out.push(at),
+        Value::Array(a) => {
+            for (i, x) in a.iter().enumerate() {
+                string_leaves(x, format!("{at}/{i}"), out);
+            }
+        }
+        Value::Object(m) => {
+            for (k, x) in m {
+                string_leaves(x, format!("{at}/{}", k.replace('~', "~0").replace('/', "~1")), out);
+            }
+        }
+        _ => {}
+    }
+}
+
 /// returns (mutation class, mutated document) — every class is outside the IAM policy grammar
 fn mutate_policy(c: &mut Case<'_>, doc: &Value) -> Option<(String, Value)> {
     let mut v = doc.clone();
@@ -258,7 +275,27 @@ fn mutate_policy(c: &mut Case<'_>, doc: &Value) -> Option<(String, Value)> {
         };
     }
     let class;
-    match c.t.below(14) {
+    match c.t.below(16) {
+        14 | 15 => {
+            // a string leaf anywhere outside Condition (whose values may be numbers / booleans in the IAM grammar)
+            // replaced by a scalar of another JSON type: identifiers, actions, resources, ids are strings only
+            let mut leaves = Vec::new();
+            string_leaves(&v, String::new(), &mut leaves);
+            leaves.retain(|p| !p.contains("/Condition"));
+            if leaves.is_empty() {
+                return None;
+            }
+            let ptr = leaves[c.t.below(leaves.len())].clone();
+            let (k, w) = match c.t.below(4) {
+                0 => ("number", json!(123456789012u64)),
+                1 => ("bool", json!(true)),
+                2 => ("float", json!(1.5)),
+                _ => ("negative", json!(-1)),
+            };
+            *v.pointer_mut(&ptr).unwrap() = w;
+            let top = ptr.split('/').filter(|s| !s.is_empty() && s.parse::<usize>().is_err() && *s != "Statement").next().unwrap_or("?").to_owned();
+            class = format!("leaf-type:{top}:{k}:depth{}", ptr.matches('/').count());
+        }
         0 => {
             let e = c.t.pick(&["allow", "deny", "ALLOW", "Permit", "", "Allow ", "AllowDeny"]).to_string();
             stmt!()["Effect"] = json!(e);
